@@ -18,7 +18,7 @@ def make_case(rng, tier):
     return c
 
 
-def _drive(eng, script, sched_rng=None, max_iter=20000):
+def _drive(eng, script, sched_rng=None, max_iter=4000):
     eng.setup(script)
     it = 0
     while it < max_iter:
